@@ -43,6 +43,7 @@ CONSTANTS
     SaveAsSet,     \* "none" | "file" | "dir"
     ContainMode,   \* "ancestry" | "textual"
     DestMode,      \* "normalised" | "joined" | "unstripped" (a leading '/' of save_as survives the factory)
+                   \* | "mangle32" (only the first 32 '/' of a command line are turned into '.')
     DenyFactories, \* factories explored by the DenyList sub-model
     DenyMax        \* entries per deny list
 
@@ -214,27 +215,38 @@ FileFactories == {"simple_file", "glob_file", "first_file", "foreach_collect"}
 SingleItem    == {"simple_file", "simple_command", "command_with_args"}
 NItems(f)     == IF f \in SingleItem THEN 1 ELSE 3
 
-ItemNames == <<"ab", "b", "c">>
-FileWords == << <<"/x/ab">>, <<"/x/my", "b">>, <<"/x/c">> >>      \* the second file name contains a blank
-FileBase  == <<"ab", "my b", "c">>
+(* Candidate items.  Strings are opaque to the model; their CLASS is what   *)
+(* the cases range over: plain, containing a blank, containing characters  *)
+(* that are special in regular expressions, and -- for commands -- an       *)
+(* argument that is a deep path (40 segments, then 12 ".." segments).       *)
+FileWords == << <<"/x/ab">>, <<"/x/my", "b">>, <<"/x/c+(1).repo">> >>
+FileBase  == <<"ab", "my b", "c+(1).repo">>
+DeepArg   == "/n/n/n/n/n/n/n/n/n/n/n/n/n/n/n/n/n/n/n/n/n/n/n/n/n/n/n/n/n/n/n/n/n/n/n/n/n/n/n/n" \o
+             "/../../../../../../../../../../../../esc"
+CmdArgs   == <<"ab", DeepArg, "a+b(c)">>
+Classes   == <<"plain", "blank", "meta">>
+CmdClasses == <<"plain", "deep", "meta">>
+CPaths    == <<"/x/ab", "/x/b", "/x/a+b(c)">>
 Item(f, i) ==
-    CASE f \in FileFactories        -> [t |-> "file", w |-> FileWords[i]]
-      [] f = "container_execute"   -> [t |-> "cmd", w |-> <<"/usr/bin/podman", "exec", "k" \o ItemNames[i], "ls", "-l">>]
-      [] f = "container_collect"   -> [t |-> "cmd", w |-> <<"/usr/bin/podman", "exec", "k" \o ItemNames[i], "cat", "/x/" \o ItemNames[i]>>]
-      [] OTHER                     -> [t |-> "cmd", w |-> <<"/bin/echo", ItemNames[i]>>]
+    CASE f \in FileFactories        -> [t |-> "file", w |-> FileWords[i], cls |-> Classes[i]]
+      [] f = "container_execute"   -> [t |-> "cmd", w |-> <<"/usr/bin/podman", "exec", "k" \o ToString(i), "ls", "-l", CmdArgs[i]>>,
+                                       cls |-> CmdClasses[i]]
+      [] f = "container_collect"   -> [t |-> "cmd", w |-> <<"/usr/bin/podman", "exec", "k" \o ToString(i), "cat", CPaths[i]>>,
+                                       cls |-> Classes[IF i = 2 THEN 1 ELSE i]]
+      [] OTHER                     -> [t |-> "cmd", w |-> <<"/bin/echo", CmdArgs[i]>>, cls |-> CmdClasses[i]]
 
 (* Entries a user may write.  Distractors: a textual (not word-wise) prefix, *)
 (* a longer command, an identifier that names no component.                 *)
 FileEntries(f) == {Item(f, i).w : i \in 1..3} \cup {<<"/x/a">>, <<"/x/my">>, <<"nosuchspec">>}
 CmdEntries(f)  ==
-    {Item(f, i).w : i \in 1..NItems(f)} \cup
+    {Item(f, i).w : i \in 1..3} \cup
     {<<Item(f, 1).w[1]>>, SubSeq(Item(f, 1).w, 1, Len(Item(f, 1).w) - 1),
      Item(f, 1).w \o <<"z">>, <<"/bin/ech">>, <<"nosuchspec">>}
 
 KnownSpecs == {"hosts", "fstab", "date"}          \* symbolic names (insights.specs.default.DefaultSpecs.<n>)
-SpecItem(n) == CASE n = "hosts" -> [t |-> "file", w |-> <<"/etc/hosts">>]
-                 [] n = "fstab" -> [t |-> "file", w |-> <<"/etc/fstab">>]
-                 [] n = "date"  -> [t |-> "cmd",  w |-> <<"/bin/date">>]
+SpecItem(n) == CASE n = "hosts" -> [t |-> "file", w |-> <<"/etc/hosts">>, cls |-> "plain"]
+                 [] n = "fstab" -> [t |-> "file", w |-> <<"/etc/fstab">>, cls |-> "plain"]
+                 [] n = "date"  -> [t |-> "cmd",  w |-> <<"/bin/date">>, cls |-> "plain"]
 FullName(n) == "insights.specs.default.DefaultSpecs." \o n
 
 IsIdent(e) == Len(e) = 1 /\ e[1] \in KnownSpecs \cup {"nosuchspec"}
@@ -268,13 +280,14 @@ SaveAsForms(f) ==
       [] f \in {"glob_file", "foreach_collect"} -> {"dir", "absdir", "bare"}
       [] OTHER -> {}
 
-Picks(f) == IF f = "simple_file" THEN {1, 2} ELSE {1}
+Picks(f) == IF f \in SingleItem THEN {1, 2, 3} ELSE {1}
 DCase(f, pk, fe, ce, sa) == [factory |-> f, comp |-> "", pick |-> pk, files |-> fe, commands |-> ce, comps |-> {},
                             saveas |-> sa]
 DenyCases ==
     UNION { { DCase(f, pk, fe, {}, "none") : fe \in Upto(FileEntries(f)), pk \in Picks(f) }
                 : f \in DenyFactories \cap FileFactories } \cup
-    UNION { { DCase(f, 1, {}, ce, "none") : ce \in Upto(CmdEntries(f)) } : f \in DenyFactories \ FileFactories } \cup
+    UNION { { DCase(f, pk, {}, ce, "none") : ce \in Upto(CmdEntries(f)), pk \in Picks(f) }
+                : f \in DenyFactories \ FileFactories } \cup
     UNION { { DCase(f, pk, {}, {}, sa) : sa \in SaveAsForms(f), pk \in Picks(f) } : f \in DenyFactories } \cup
     { [factory |-> "spec", comp |-> n, pick |-> 1, files |-> fe, commands |-> ce, comps |-> cs, saveas |-> "none"]
         : n \in (IF DenyFactories = {} THEN {} ELSE KnownSpecs),
@@ -292,7 +305,10 @@ ItemIdx(c, i) == IF c.factory \in SingleItem THEN c.pick ELSE i
 ItemRel(c, i) ==
     IF c.factory = "spec" THEN (IF SpecItem(c.comp).t = "file" THEN <<"etc", c.comp>> ELSE <<c.comp>>)
     ELSE IF c.factory \in FileFactories THEN <<"x", FileBase[ItemIdx(c, i)]>>
-    ELSE <<"cmd" \o ToString(i)>>                                   \* the mangled command line
+    ELSE IF DestMode = "mangle32" /\ CaseItems(c)[i].cls = "deep"
+         THEN <<"cmd" \o ToString(i), "n", "n", "n", "n", "n", "n", "n", "n", "..", "..", "..", "..", "..", "..", "..",
+                "..", "..", "..", "..", "..", "esc">>               \* separators beyond the 32nd survive
+    ELSE <<"cmd" \o ToString(i)>>                                   \* the mangled command line: ONE name
 FPrefix(c) ==
     CASE c.factory \in {"container_execute", "container_collect"} -> <<"insights_containers">>
       [] c.factory \in FileFactories -> <<>>
@@ -398,8 +414,8 @@ DenyRespected ==
     sub = "deny" /\ dn.phase # "cfg" =>
         \A i \in dn.acc : ~DeniedByUser(dn.c, dn.c.comp, CaseItems(dn.c)[i])
 
-FactoryWritesUnderOut ==
-    sub = "deny" /\ dn.phase # "cfg" => \A loc \in dn.wr : IsPrefix(<<"out">>, loc)
+FactoryWritesUnderOut ==             \* the kernel resolves ".." below the (fresh) output directory lexically
+    sub = "deny" /\ dn.phase # "cfg" => \A loc \in dn.wr : IsPrefix(<<"out">>, Normal(loc, <<>>))
 
 (* Sanity of the resolver itself.                                           *)
 StepAgreesWithRun ==              \* the action system and the recursive function are the same walk
